@@ -41,45 +41,66 @@ const (
 
 type Op struct {
 	K    string `json:"k"`              // Add Del DelAll B Stall Resume
-	ID   int    `json:"id,omitempty"`   // rule id 1..3, 0 = the reserved word deleteAll
+	ID   int    `json:"id,omitempty"`   // number of the rule id (Case.IDNames), 0 = exactly the reserved word deleteAll
 	S    int    `json:"s,omitempty"`    // stream 1..3
 	Mode string `json:"mode,omitempty"` // up | down | drop<k> | stall
 	U    int    `json:"u,omitempty"`    // number of the destination URL (one per rule version)
 }
 
 type Obs struct {
-	Rules   [][3]int `json:"rules"`   // id, stream, url - sorted by id
-	Clients [][2]int `json:"clients"` // id, url - sorted by id
-	Members []int    `json:"members"` // 10*url+stream of every client registered with the messages hub, sorted
-	Open    []int    `json:"open"`    // url, once per open connection, sorted
-	Recv    []int    `json:"recv"`    // urls the tagged broadcast of this op arrived at, sorted
+	Skip    bool     `json:"skip,omitempty"`    // nothing was observed after this operation (a wide table being filled)
+	Tables  bool     `json:"tables,omitempty"`  // Rules / Clients / Members were read
+	Strange []string `json:"strange,omitempty"` // listed ids that no rule of this history was added with (number 9999 in Rules)
+	Rules   [][3]int `json:"rules"`             // id, stream, url - sorted by id
+	Clients [][2]int `json:"clients"`           // id, url - sorted by id
+	Members []int    `json:"members"`           // 10*url+stream of every client registered with the messages hub, sorted
+	Open    []int    `json:"open"`              // url, once per open connection, sorted
+	Recv    []int    `json:"recv"`              // urls the tagged broadcast of this op arrived at, sorted
 }
 
 type Case struct {
-	Kind    string `json:"kind"`
-	Ops     []Op   `json:"ops"`
-	Obs     []Obs  `json:"obs"`
-	Panic   bool   `json:"panic"`
-	Hang    bool   `json:"hang"`
-	Stalled bool   `json:"stalled"` // connections did not settle within 2 s after op len(Obs)-1; history cut there
-	Detail  string `json:"detail,omitempty"`
-	Retries int    `json:"retries,omitempty"`
-	Hist    int    `json:"hist,omitempty"` // number used in the destination paths of this run (diagnostics)
+	Kind    string   `json:"kind"`
+	Ops     []Op     `json:"ops"`
+	Obs     []Obs    `json:"obs"`
+	Panic   bool     `json:"panic"`
+	Hang    bool     `json:"hang"`
+	Stalled bool     `json:"stalled"` // connections did not settle within 2 s after op len(Obs)-1; history cut there
+	Detail  string   `json:"detail,omitempty"`
+	Retries int      `json:"retries,omitempty"`
+	Hist    int      `json:"hist,omitempty"`     // number used in the destination paths of this run (diagnostics)
+	IDNames []string `json:"id_names,omitempty"` // IDNames[i]: the id string of id number i (default r<i>); index 0 unused
+	Quiet   int      `json:"quiet,omitempty"`    // the first Quiet operations fill the rule table: not observed, no probes
+	EmptyID int      `json:"empty_id,omitempty"` // the id number whose id string is empty (0 = none)
 }
 
-func idName(i int) string {
+func (c *Case) idn(i int) string {
 	if i == 0 {
 		return "deleteAll"
 	}
+	if i < len(c.IDNames) && c.IDNames[i] != "" {
+		return c.IDNames[i]
+	}
+	if i < len(c.IDNames) && c.EmptyID == i {
+		return ""
+	}
 	return fmt.Sprintf("r%d", i)
 }
-func idNumber(s string) int {
-	for i := 0; i <= nIDs; i++ {
-		if idName(i) == s {
+
+// idnum maps an id found in the hub's tables back to its number; exactly "deleteAll" is 0
+func (c *Case) idnum(s string) int {
+	if s == "deleteAll" {
+		return 0
+	}
+	for i := 1; i < len(c.IDNames); i++ {
+		if c.idn(i) == s {
 			return i
 		}
 	}
-	return 99
+	var i int
+	if _, err := fmt.Sscanf(s, "r%d", &i); err == nil && i >= 1 && c.idn(i) == s {
+		return i
+	}
+	return 9999
 }
 
 var streamNames = []string{"", "stream/a", "stream/b", "data"}
@@ -106,8 +127,8 @@ type pathRec struct {
 
 var reg = struct {
 	sync.Mutex
-	m map[string]*pathRec
-}{m: map[string]*pathRec{}}
+	m map[int]map[string]*pathRec // history -> path -> record
+}{m: map[int]map[string]*pathRec{}}
 
 var upgrader = websocket.Upgrader{CheckOrigin: func(r *http.Request) bool { return true }}
 
@@ -166,16 +187,19 @@ func parseURL(s string) (int, string, int, bool) {
 }
 
 func handler(w http.ResponseWriter, r *http.Request) {
-	_, mode, _, ok := parsePath(r.URL.Path)
+	hh, mode, _, ok := parsePath(r.URL.Path)
 	if !ok {
 		http.Error(w, "unknown", 404)
 		return
 	}
 	reg.Lock()
-	pr := reg.m[r.URL.Path]
+	if reg.m[hh] == nil {
+		reg.m[hh] = map[string]*pathRec{}
+	}
+	pr := reg.m[hh][r.URL.Path]
 	if pr == nil {
 		pr = &pathRec{}
-		reg.m[r.URL.Path] = pr
+		reg.m[hh][r.URL.Path] = pr
 	}
 	pr.attempts++
 	reg.Unlock()
@@ -245,12 +269,8 @@ type snap struct {
 
 func snapshot(hist int) snap {
 	s := snap{total: map[int]int{}, open: map[int]int{}, msgs: map[int]map[string]bool{}}
-	prefix := fmt.Sprintf("/h%d/", hist)
 	reg.Lock()
-	for p, pr := range reg.m {
-		if !strings.HasPrefix(p, prefix) {
-			continue
-		}
+	for p, pr := range reg.m[hist] {
 		_, _, u, _ := parsePath(p)
 		s.total[u] += len(pr.conns)
 		for _, c := range pr.conns {
@@ -540,9 +560,9 @@ func runHistory(c *Case) {
 			if o.ID != 0 {
 				newU, atLeast = o.U, snapshot(hist).total[o.U]+1
 			}
-			ok = r.add(rwc.Rule{ID: idName(o.ID), Stream: streamNames[o.S], Destination: base + pathOf(hist, o.Mode, o.U)})
+			ok = r.add(rwc.Rule{ID: c.idn(o.ID), Stream: streamNames[o.S], Destination: base + pathOf(hist, o.Mode, o.U)})
 		case "Del":
-			ok = r.del(idName(o.ID))
+			ok = r.del(c.idn(o.ID))
 		case "DelAll":
 			ok = r.del("deleteAll")
 		case "B":
@@ -562,6 +582,12 @@ func runHistory(c *Case) {
 				time.Sleep(d)
 			}
 		}
+		if ok && i < c.Quiet {
+			// a wide table being filled: the operation is handed over, nothing is awaited or read
+			c.Obs = append(c.Obs, Obs{Skip: true, Rules: [][3]int{}, Clients: [][2]int{}, Members: []int{}, Open: []int{}, Recv: []int{}})
+			n++
+			continue
+		}
 		if !ok || !r.barrier() {
 			break
 		}
@@ -570,27 +596,41 @@ func runHistory(c *Case) {
 			settled = r.settle(newU, atLeast)
 		}
 		ob := Obs{Rules: [][3]int{}, Clients: [][2]int{}, Members: []int{}, Open: []int{}, Recv: []int{}}
+		// in a wide history the tables are read after the rule operations only (they do not change in between)
+		ob.Tables = c.Quiet == 0 || o.K != "B"
 		for id, ru := range r.h.Rules {
+			if !ob.Tables {
+				break
+			}
 			u := 9999
 			if hh, _, uu, ok := parseURL(ru.Destination); ok && hh == hist {
 				u = uu
 			}
-			ob.Rules = append(ob.Rules, [3]int{idNumber(id), streamNumber(ru.Stream), u})
-			if idNumber(ru.ID) != idNumber(id) {
+			ob.Rules = append(ob.Rules, [3]int{c.idnum(id), streamNumber(ru.Stream), u})
+			if c.idnum(id) == 9999 && len(id) < 80 {
+				ob.Strange = append(ob.Strange, id)
+			}
+			if c.idnum(ru.ID) != c.idnum(id) {
 				ob.Rules[len(ob.Rules)-1][0] = 98 // stored under a key that is not its id
 			}
 		}
 		sort.Slice(ob.Rules, func(a, b int) bool { return ob.Rules[a][0] < ob.Rules[b][0] })
 		for id, cl := range r.h.Clients {
+			if !ob.Tables {
+				break
+			}
 			u := 9999
 			if hh, _, uu, ok := parseURL(cl.Messages.Name); ok && hh == hist {
 				u = uu
 			}
-			ob.Clients = append(ob.Clients, [2]int{idNumber(id), u})
+			ob.Clients = append(ob.Clients, [2]int{c.idnum(id), u})
 		}
 		sort.Slice(ob.Clients, func(a, b int) bool { return ob.Clients[a][0] < ob.Clients[b][0] })
 		for s, set := range []map[*hub.Client]bool{nil, r.mh.Streams["stream/a"], r.mh.Streams["stream/b"], r.mh.Hub.Clients["data"]} {
 			for m := range set {
+				if !ob.Tables {
+					break
+				}
 				u := 999
 				if hh, _, uu, ok := parseURL(m.Name); ok && hh == hist {
 					u = uu
@@ -681,14 +721,24 @@ func (c Case) reliable() (rel []int) {
 	return
 }
 
+// an id is emitted with its NAME (bytes) and its number; the model decides whether it is the reserved word.
+// The default names r<i> are emitted by number alone (rid i), which keeps wide cases small.
+func (c *Case) idCoq(i int) string {
+	name := c.idn(i)
+	if name == fmt.Sprintf("r%d", i) {
+		return lib.App("rid_plain", lib.N(uint64(i)))
+	}
+	return lib.App("id_of_name", lib.Str(name), lib.N(uint64(i)))
+}
+
 func (c Case) coq() string {
 	ops := make([]string, len(c.Ops))
 	for i, o := range c.Ops {
 		switch o.K {
 		case "Add":
-			ops[i] = lib.App("Add", lib.App("mkrule", lib.N(uint64(o.ID)), lib.N(uint64(o.S)), lib.N(uint64(o.U))))
+			ops[i] = lib.App("Add", lib.App("mkrule", c.idCoq(o.ID), lib.N(uint64(o.S)), lib.N(uint64(o.U))))
 		case "Del":
-			ops[i] = lib.App("Delete", lib.N(uint64(o.ID)))
+			ops[i] = lib.App("Delete", c.idCoq(o.ID))
 		case "DelAll":
 			ops[i] = "DeleteAll"
 		case "B", "Stall":
@@ -707,14 +757,92 @@ func (c Case) coq() string {
 		for j, x := range b.Clients {
 			cs[j] = lib.Tuple(lib.N(uint64(x[0])), lib.N(uint64(x[1])))
 		}
-		obs[i] = lib.App("mkobs", lib.List(rs), lib.List(cs), ns(b.Members), ns(b.Open), ns(b.Recv))
+		tables := lib.OptionOf(b.Tables, lib.Tuple(lib.List(rs), lib.List(cs), ns(b.Members)))
+		obs[i] = lib.OptionOf(!b.Skip, lib.App("mkobs", tables, ns(b.Open), ns(b.Recv)))
 	}
 	return lib.Tuple(lib.List(ops), lib.List(obs), ns(c.reliable()))
 }
 
 // ---------------------------------------------------------------- generator
+// idShapes gives the rule ids of a history odd shapes: near the reserved word, with slashes, spaces,
+// escapes, non-ASCII, very long, empty.
+func idShapes(r *lib.Rng, c *Case) {
+	pool := []string{"/deleteAll", "deleteAll/", "deleteall", " deleteAll", "deleteAll ", "%2FdeleteAll", "DeleteAll", "//deleteAll",
+		"r 1", "r\u00e8gle-\u03bb", strings.Repeat("x", 300), "/r1", "r1/", "/r2", "r3 ", "a/b", ""}
+	c.IDNames = make([]string, nIDs+1)
+	for i := 1; i <= nIDs; i++ {
+		if r.Chance(2, 3) {
+			k := r.Intn(len(pool))
+			if pool[k] == "" {
+				c.EmptyID = i
+			}
+			c.IDNames[i] = pool[k]
+			pool = append(pool[:k], pool[k+1:]...)
+		}
+	}
+}
+
+// genWide: K rules r1..rK (nine in ten to destinations that refuse, so that they cost no connection),
+// filled without observation; then a tail of replaces / new ids / deletes / re-adds, observed as usual.
+func genWide(r *lib.Rng, K int) Case {
+	c := Case{Kind: fmt.Sprintf("wide%d", K)}
+	type cur struct {
+		s, u int
+		mode string
+	}
+	curr := map[int]cur{}
+	nextU := 1
+	add := func(id int, s int, mode string) {
+		c.Ops = append(c.Ops, Op{K: "Add", ID: id, S: s, Mode: mode, U: nextU})
+		curr[id] = cur{s, nextU, mode}
+		nextU++
+	}
+	for id := 1; id <= K; id++ {
+		mode := "down"
+		if r.Chance(1, 10) || id <= 2 {
+			mode = "up"
+		}
+		add(id, r.Range(1, nStreams), mode)
+	}
+	c.Quiet = len(c.Ops)
+	probes := func() {
+		for s := 1; s <= nStreams; s++ {
+			c.Ops = append(c.Ops, Op{K: "B", S: s})
+		}
+	}
+	c.Ops = append(c.Ops, Op{K: "Del", ID: K + 1000}) // an id that is not there: the first observation of the table
+	probes()
+	nextID := K + 1
+	deleted := []int{}
+	for i := 0; i < 8; i++ {
+		switch x := r.Intn(100); {
+		case x < 45:
+			id := r.Range(1, K) // replace a rule that is there (or re-add one deleted in this tail)
+			if r.Chance(1, 2) {
+				id = r.Range(1, 2)
+			}
+			add(id, r.Range(1, nStreams), "up")
+		case x < 65:
+			add(nextID, r.Range(1, nStreams), "up") // one more id
+			nextID++
+		case x < 88 || len(deleted) == 0:
+			id := r.Range(1, K)
+			c.Ops = append(c.Ops, Op{K: "Del", ID: id})
+			delete(curr, id)
+			deleted = append(deleted, id)
+		default:
+			add(deleted[r.Intn(len(deleted))], r.Range(1, nStreams), "up")
+		}
+		probes()
+	}
+	return c
+}
+
 func genHistory(r *lib.Rng, kind string) Case {
 	c := Case{Kind: kind}
+	if r.Chance(2, 5) {
+		idShapes(r, &c)
+	}
 	nops := r.Range(4, 14)
 	if kind == "short" {
 		nops = r.Range(2, 4)
@@ -823,12 +951,12 @@ func genStall(r *lib.Rng) Case {
 }
 
 // ---------------------------------------------------------------- the property's own oracle
-func (o Op) String() string {
+func (c *Case) opString(o Op) string {
 	switch o.K {
 	case "Add":
-		return fmt.Sprintf("Add %s %s ->u%d(%s)", idName(o.ID), streamNames[o.S], o.U, o.Mode)
+		return fmt.Sprintf("Add %s %s ->u%d(%s)", c.idn(o.ID), streamNames[o.S], o.U, o.Mode)
 	case "Del":
-		return "Del " + idName(o.ID)
+		return "Del " + c.idn(o.ID)
 	case "B":
 		return "B " + streamNames[o.S]
 	case "Stall":
@@ -852,9 +980,12 @@ func oracle(c Case, idx int, res *lib.Result) {
 	last := "start"
 	hist := func(i int) string {
 		hs := []string{}
-		for _, p := range c.Ops[:i+1] {
-			if p.K != "B" {
-				hs = append(hs, p.String())
+		if c.Quiet > 0 && i >= c.Quiet {
+			hs = append(hs, fmt.Sprintf("[%d rules added: %s .. %s]", c.Quiet, c.idn(1), c.idn(c.Quiet)))
+		}
+		for j, p := range c.Ops[:i+1] {
+			if p.K != "B" && (j >= c.Quiet || i < c.Quiet) {
+				hs = append(hs, c.opString(p))
 			}
 		}
 		return strings.Join(hs, "; ")
@@ -862,21 +993,21 @@ func oracle(c Case, idx int, res *lib.Result) {
 	for i, o := range c.Ops {
 		if i >= len(c.Obs) {
 			if c.Panic {
-				bad("hub-panic", o.K+"-after-"+last, fmt.Sprintf("op %d (%s): %s; history: %s", i, o.String(), c.Detail, hist(i)))
+				bad("hub-panic", o.K+"-after-"+last, fmt.Sprintf("op %d (%s): %s; history: %s", i, c.opString(o), c.Detail, hist(i)))
 			} else if c.Hang {
-				bad("hub-hang", o.K+"-after-"+last, fmt.Sprintf("op %d (%s): the hub did not take the operation within 2 s; history: %s", i, o.String(), hist(i)))
+				bad("hub-hang", o.K+"-after-"+last, fmt.Sprintf("op %d (%s): the hub did not take the operation within 2 s; history: %s", i, c.opString(o), hist(i)))
 			}
 			return
 		}
 		switch o.K {
 		case "Add":
-			if o.ID != 0 {
+			if c.idn(o.ID) != "deleteAll" { // the reserved word, exactly; every other string is an ordinary id
 				curr[o.ID] = cur{o.S, o.U, o.Mode}
 				owner[o.U] = o.ID
 			}
 			last = "Add"
 		case "Del":
-			if o.ID == 0 {
+			if c.idn(o.ID) == "deleteAll" {
 				curr = map[int]cur{}
 			} else {
 				delete(curr, o.ID)
@@ -887,39 +1018,71 @@ func oracle(c Case, idx int, res *lib.Result) {
 			last = "DelAll"
 		}
 		ob := c.Obs[i]
-		// the listing equals the rules added and not since deleted; the reserved id is never there
-		same := len(ob.Rules) == len(curr)
-		for _, ru := range ob.Rules {
-			if ru[0] == 0 {
-				bad("reserved-id-created", o.K, fmt.Sprintf("op %d (%s): the rule listing holds a rule with id deleteAll; history: %s", i, o.String(), hist(i)))
-			}
-			cu, ok := curr[ru[0]]
-			if !ok || cu.s != ru[1] || cu.u != ru[2] {
-				same = false
-			}
+		if ob.Skip {
+			continue
 		}
-		if !same {
-			bad("listing-not-adds-minus-deletes", o.K, fmt.Sprintf("op %d (%s): listing (id,stream,url) %v, the history says %v; history: %s", i, o.String(), ob.Rules, curr, hist(i)))
-		}
-		// what is registered with the messages hub: one client per current rule, nothing else
-		seenM := map[int]int{}
-		for _, us := range ob.Members {
-			u, ms := us/10, us%10
-			seenM[u]++
-			id := owner[u]
-			cu, ok := curr[id]
-			if !ok || cu.u != u || seenM[u] > 1 {
-				bad("superseded-client-still-registered", "after-"+last,
-					fmt.Sprintf("op %d (%s): a client for u%d (made for %s) is still registered with the messages hub although its rule was replaced or deleted; history: %s", i, o.String(), u, idName(id), hist(i)))
-			} else if cu.s != ms {
-				bad("client-registered-for-old-stream", "after-"+last,
-					fmt.Sprintf("op %d (%s): the client of rule %s -> u%d is registered with the messages hub for %s, its latest rule names %s; history: %s", i, o.String(), idName(id), u, streamNames[ms%4], streamNames[cu.s], hist(i)))
+		if ob.Tables {
+			// the listing equals the rules added and not since deleted; the reserved id is never there
+			same := len(ob.Rules) == len(curr)
+			for _, ru := range ob.Rules {
+				if ru[0] == 0 {
+					bad("reserved-id-created", o.K, fmt.Sprintf("op %d (%s): the rule listing holds a rule with id deleteAll; history: %s", i, c.opString(o), hist(i)))
+				}
+				cu, ok := curr[ru[0]]
+				if !ok || cu.s != ru[1] || cu.u != ru[2] {
+					same = false
+				}
 			}
-		}
-		for id, cu := range curr {
-			if seenM[cu.u] == 0 {
-				bad("live-rule-not-registered", "after-"+last,
-					fmt.Sprintf("op %d (%s): rule %s -> u%d has no client registered with the messages hub; history: %s", i, o.String(), idName(id), cu.u, hist(i)))
+			if !same {
+				// name the entries that differ, not the whole listing
+				diff := []string{}
+				seen := map[int]bool{}
+				for _, ru := range ob.Rules {
+					seen[ru[0]] = true
+					cu, ok := curr[ru[0]]
+					switch {
+					case ru[0] >= 98:
+						diff = append(diff, fmt.Sprintf("an id that was never added is listed (-> u%d)", ru[2]))
+					case !ok:
+						diff = append(diff, fmt.Sprintf("%q is listed but was deleted / never added", c.idn(ru[0])))
+					case cu.s != ru[1] || cu.u != ru[2]:
+						diff = append(diff, fmt.Sprintf("%q listed as %s -> u%d, latest rule is %s -> u%d", c.idn(ru[0]), streamNames[ru[1]%4], ru[2], streamNames[cu.s], cu.u))
+					}
+				}
+				for id, cu := range curr {
+					if !seen[id] {
+						diff = append(diff, fmt.Sprintf("%q (%s -> u%d) was added and is not listed", c.idn(id), streamNames[cu.s], cu.u))
+					}
+				}
+				if len(ob.Strange) > 0 {
+					diff = append(diff, fmt.Sprintf("ids listed that no rule was added with: %q", ob.Strange))
+				}
+				sort.Strings(diff)
+				if len(diff) > 6 {
+					diff = append(diff[:6], fmt.Sprintf("... %d more", len(diff)-6))
+				}
+				bad("listing-not-adds-minus-deletes", o.K, fmt.Sprintf("op %d (%s): %d rules listed, the history says %d: %s; history: %s", i, c.opString(o), len(ob.Rules), len(curr), strings.Join(diff, "; "), hist(i)))
+			}
+			// what is registered with the messages hub: one client per current rule, nothing else
+			seenM := map[int]int{}
+			for _, us := range ob.Members {
+				u, ms := us/10, us%10
+				seenM[u]++
+				id := owner[u]
+				cu, ok := curr[id]
+				if !ok || cu.u != u || seenM[u] > 1 {
+					bad("superseded-client-still-registered", "after-"+last,
+						fmt.Sprintf("op %d (%s): a client for u%d (made for %s) is still registered with the messages hub although its rule was replaced or deleted; history: %s", i, c.opString(o), u, c.idn(id), hist(i)))
+				} else if cu.s != ms {
+					bad("client-registered-for-old-stream", "after-"+last,
+						fmt.Sprintf("op %d (%s): the client of rule %s -> u%d is registered with the messages hub for %s, its latest rule names %s; history: %s", i, c.opString(o), c.idn(id), u, streamNames[ms%4], streamNames[cu.s], hist(i)))
+				}
+			}
+			for id, cu := range curr {
+				if seenM[cu.u] == 0 {
+					bad("live-rule-not-registered", "after-"+last,
+						fmt.Sprintf("op %d (%s): rule %s -> u%d has no client registered with the messages hub; history: %s", i, c.opString(o), c.idn(id), cu.u, hist(i)))
+				}
 			}
 		}
 		// at most one live connection per id, and only to the destination of the latest rule
@@ -929,13 +1092,13 @@ func oracle(c Case, idx int, res *lib.Result) {
 			perID[id]++
 			if cu, ok := curr[id]; !ok || cu.u != u {
 				bad("superseded-destination-still-connected", "after-"+last,
-					fmt.Sprintf("op %d (%s): a connection to u%d (made for %s) is still open after the hub settled (up to 2 s) although that rule was replaced or deleted; history: %s", i, o.String(), u, idName(id), hist(i)))
+					fmt.Sprintf("op %d (%s): a connection to u%d (made for %s) is still open after the hub settled (up to 2 s) although that rule was replaced or deleted; history: %s", i, c.opString(o), u, c.idn(id), hist(i)))
 			}
 		}
 		for id, k := range perID {
 			if k > 1 {
 				bad("two-live-connections-for-one-id", "after-"+last,
-					fmt.Sprintf("op %d (%s): %d connections open for rule %s (urls open: %v); history: %s", i, o.String(), k, idName(id), ob.Open, hist(i)))
+					fmt.Sprintf("op %d (%s): %d connections open for rule %s (urls open: %v); history: %s", i, c.opString(o), k, c.idn(id), ob.Open, hist(i)))
 			}
 		}
 		for id, cu := range curr {
@@ -950,7 +1113,7 @@ func oracle(c Case, idx int, res *lib.Result) {
 			}
 			if !found {
 				bad("live-rule-not-connected", "after-"+last,
-					fmt.Sprintf("op %d (%s): rule %s -> u%d (%s) has no open connection after 2 s; history: %s", i, o.String(), idName(id), cu.u, cu.mode, hist(i)))
+					fmt.Sprintf("op %d (%s): rule %s -> u%d (%s) has no open connection after 2 s; history: %s", i, c.opString(o), c.idn(id), cu.u, cu.mode, hist(i)))
 			}
 		}
 		if o.K == "B" || o.K == "Stall" {
@@ -962,16 +1125,16 @@ func oracle(c Case, idx int, res *lib.Result) {
 				switch {
 				case !ok || cu.u != u:
 					bad("traffic-to-superseded-destination", "after-"+last,
-						fmt.Sprintf("op %d (%s): the message broadcast now reached u%d, whose rule (%s) had already been replaced or deleted; history: %s", i, o.String(), u, idName(id), hist(i)))
+						fmt.Sprintf("op %d (%s): the message broadcast now reached u%d, whose rule (%s) had already been replaced or deleted; history: %s", i, c.opString(o), u, c.idn(id), hist(i)))
 				case cu.s != o.S:
 					bad("traffic-from-wrong-stream", "after-"+last,
-						fmt.Sprintf("op %d (%s): reached u%d, whose rule names %s; history: %s", i, o.String(), u, streamNames[cu.s], hist(i)))
+						fmt.Sprintf("op %d (%s): reached u%d, whose rule names %s; history: %s", i, c.opString(o), u, streamNames[cu.s], hist(i)))
 				}
 			}
 			for id, cu := range curr {
 				if cu.s == o.S && cu.mode == "up" && !got[cu.u] {
 					bad("other-rule-stopped-flowing", "after-"+last,
-						fmt.Sprintf("op %d (%s): live rule %s -> u%d (up) did not receive the broadcast; history: %s", i, o.String(), idName(id), cu.u, hist(i)))
+						fmt.Sprintf("op %d (%s): live rule %s -> u%d (up) did not receive the broadcast; history: %s", i, c.opString(o), c.idn(id), cu.u, hist(i)))
 				}
 			}
 		}
@@ -1010,6 +1173,14 @@ func main() {
 		lib.ReadReplayCase(a.Replay, &c)
 		cases = []Case{c}
 	} else {
+		// wide rule tables around the sizes where a bound might sit (1023 .. 1100 rules in the thorough tier only)
+		wide := []int{8, 9, 63, 64, 65, 255, 256, 257}
+		if a.Tier == "thorough" {
+			wide = append(wide, 1023, 1024, 1025, 1100)
+		}
+		for _, K := range wide {
+			cases = append(cases, genWide(rng.Fork(), K))
+		}
 		// the slow scenarios first, so that they overlap with the rest
 		for i := 0; i < a.Pick(6, 40); i++ {
 			cases = append(cases, genStall(rng.Fork()))
